@@ -1418,6 +1418,11 @@ func (c *c06Gen) render(toks []string, perturb bool) string {
 			if perturb && g.Chance(1, 12) {
 				nl = "\r\n"
 				c.nperturb["crlf"] = true
+				if g.Chance(1, 3) {
+					// the old Macintosh form: a bare carriage return ends a physical line too (language reference 2.1.2)
+					nl = "\r"
+					c.nperturb["bare-cr"] = true
+				}
 			}
 			sb.WriteString(nl)
 			if perturb && g.Chance(1, 10) {
@@ -1455,6 +1460,11 @@ func (c *c06Gen) render(toks []string, perturb bool) string {
 			continue
 		}
 		if lineStart {
+			if perturb && g.Chance(1, 40) {
+				// a form feed at the start of a line restarts the indentation count (language reference 2.1.8)
+				sb.WriteString(g.Str("\f", "  \f", "\t\f", "\f\f"))
+				c.nperturb["form-feed"] = true
+			}
 			sb.WriteString(indents[len(indents)-1])
 			lineStart = false
 		} else {
@@ -1492,9 +1502,12 @@ func (c *c06Gen) render(toks []string, perturb bool) string {
 				case glueOK && g.Chance(2, 3):
 					sep = ""
 				default:
-					sep = g.Str(" ", " ", " ", "  ", "\t")
+					sep = g.Str(" ", " ", " ", "  ", "\t", " ", " ", "  ", "\t", "\f", " \f")
 					if sep != " " {
 						c.nperturb["spacing"] = true
+					}
+					if strings.Contains(sep, "\f") {
+						c.nperturb["form-feed"] = true
 					}
 				}
 			}
